@@ -176,6 +176,9 @@ AVal(t) == ((t - 1000) % 32) - 1
 Codes(ps) == [i \in 1..Len(ps) |-> ACode(ps[i][1], ps[i][2])]
 Mask(ps) == [i \in 1..Len(ps) |-> ACode(ps[i][1], Masked)]
 IsAssocKind(o) == o.kind \in {"Catalog", "Map", "GoMap"}
+\* what a named ranker looks at: the token itself, or the key of an association token
+KeyTok(t) == IF t >= 1000 THEN AKey(t) ELSE t
+KeyToks(ts) == [i \in 1..Len(ts) |-> KeyTok(ts[i])]
 \* what a pointer-copying consumer sees of an object (a token sequence)
 View(o) == IF o.kind = "Catalog" THEN Mask(o.s) ELSE IF IsAssocKind(o) THEN Codes(o.s) ELSE o.s
 \* what a consumer of plain tokens sees
@@ -468,7 +471,8 @@ AcceptsRel(w, e, o) ==
            /\ o.r = None /\ OnlySeqOf(w, o.w, e.self)
            /\ IsPerm(o.w[e.self].s, w[e.self].s)
            /\ e.args[1] \in Preorders =>
-                Ascending(IF e.k = "Catalog" THEN Keys(o.w[e.self].s) ELSE o.w[e.self].s, e.args[1])
+                \* a ranker looks at the token, or at the key of an association
+                Ascending(IF e.k = "Catalog" THEN Keys(o.w[e.self].s) ELSE KeyToks(o.w[e.self].s), e.args[1])
       [] e.k = "Catalog" /\ e.m = "MakeFromMap" ->
            /\ o.r = ObjR(Len(w) + 1) /\ OneNew(w, o.w)
            /\ LET t == o.w[Len(w) + 1] IN t = MkCatalog(t.s) /\ IsPerm(t.s, w[e.args[1]].s)
